@@ -318,7 +318,8 @@ func checkCloneTurnover(exec *genetics.SequentialPopulationEpochExecutor, ctx co
 			return nil
 		}
 		produced[sp]++
-		if judgeCut[sp] && best[k] < cut[sp] {
+		// robustly below the cut-off only: values within rounding of each other can become equal in the adjustment (a tie)
+		if judgeCut[sp] && best[k] < cut[sp]-1e-9*math.Abs(cut[sp]) {
 			return fmt.Errorf("new organism %d is a copy of a member of species %d whose fitness %v is below that of the species' top floor(%v*%d)+1 members (%v): it was not available as a parent",
 				i, sp.Id, best[k], opts.SurvivalThresh, len(members[sp]), cut[sp])
 		}
@@ -446,12 +447,12 @@ func checkParentSelection(species []*genetics.Species, pre map[*genetics.Organis
 			if kept != nil {
 				isParent = kept[o]
 			}
-			f := pre[o].raw
-			if negative {
-				// negative values are replaced during the adjustment: the ranking the library can be held to is the one by the
-				// adjusted values (for non-negative values both rankings agree, the adjustment multiplies by one species-wide factor)
-				f = o.Fitness
-			}
+			// the ranking the library can be held to is the one by the adjusted values: the adjustment multiplies by one species-wide
+			// positive factor, so both rankings agree except where it makes values equal - raw values one ulp apart that round to
+			// the same product (found by the thorough tier: 0.04012037119535667 / ...668), values at the bottom of the range,
+			// negative values, which are all replaced by one constant - and a tie admits either organism
+			f := o.Fitness
+			_ = negative
 			if isParent {
 				parents = append(parents, f)
 			} else {
